@@ -376,7 +376,7 @@ theorem restore_exact_after_fossil {c : Cfg} (hc : c.ok) {g gf : GS} (hG : GInv 
 
 /-! ## non-vacuity -/
 
-def cTiny : Cfg := ⟨3, 1, 5, 16, fun i o => i + o⟩
+def cTiny : Cfg := ⟨3, 1, 5, 16, fun i o => i + o, false⟩
 theorem cTiny_ok : cTiny.ok := ⟨by decide, by decide⟩
 
 def hist : List Op :=
